@@ -120,4 +120,19 @@ proof fn vx_sanity__vxtwin_prelude()
 }
 /*@vx:end PRELUDE::vx_sanity*/
 
+pub open spec fn flag_opt(f: u8) -> bool { f & 0x80u8 != 0 }
+pub open spec fn flag_trans(f: u8) -> bool { f & 0x40u8 != 0 }
+/// C05, from the property text: an attribute error may be handled by dropping just that attribute only for an optional
+/// non-transitive attribute (by the attribute's definition; by the received flags only when the code is unknown),
+/// AS4_PATH or AS4_AGGREGATOR; every other error makes the announced prefixes withdrawn.
+pub open spec fn discardable(e: AttributeError) -> bool {
+    e.attr_code == 17u8 || e.attr_code == 18u8 || {
+        let f = match spec_canonical(e.attr_code) { Some(f) => f, None => e.attr_flags };
+        flag_opt(f) && !flag_trans(f)
+    }
+}
+pub open spec fn faulty(errs: Seq<AttributeError>) -> bool {
+    exists|i: int| 0 <= i < errs.len() && !discardable(#[trigger] errs[i])
+}
+
 } // verus!
